@@ -12,9 +12,16 @@ Definition two_array_vars_refuted := two_array_vars_counterexample.
 (** D30: a rule whose `when` has no "pattern" member is indexed under the whole
     `when` map but re-matched against the empty pattern. *)
 Definition direct_when_matched_by_index_only := direct_when_matched_by_index_only_counterexample.
-(** A stored rule with both a schedule and a when (accepted by AddFact, not by
-    AddRule) is treated differently by the two state kinds. *)
-Definition scheduled_with_when_linear_only := scheduled_with_when_linear_only_counterexample.
+(** D59/D66 (repaired in /repo): a stored rule with a "schedule" member AND a
+    `when` used to be left out of the rule index whatever the schedule was, so
+    a rule with an empty (or null) schedule - an ordinary event rule to
+    RuleFromMap - was dispatched by the linear state only.  Now both kinds
+    dispatch it; a rule with a real schedule and a `when` (AddFact accepts it)
+    is dispatched by neither. *)
+Definition empty_schedule_dispatched_by_both := empty_schedule_dispatched_by_both_example.
+(** ... and a scheduled rule whose `when` the index cannot sort can be replaced
+    and removed (it used to be stuck: "... is not sortable"). *)
+Definition scheduled_unsortable_when_removable := scheduled_unsortable_when_removable_example.
 (** The hypotheses of dispatch_exact_indexed are satisfiable: a concrete history
     with an overwritten, a removed and a fact-overwritten rule. *)
 Definition dispatch_hypotheses_satisfiable := dispatch_example.
